@@ -110,6 +110,15 @@ func init() {
 			}
 			sb.WriteString("\ndef " + x[1] + " : List String := " + LeanStrList(c05Accesses(fd)) + "\n")
 		}
+		// ---- every branch condition and every assignment statement of GC and alloc (GC runs without the
+		// queue lock: where its truncation bound comes from matters; alloc must not assign a queue field
+		// before AcquirePage succeeded), and GC's complete call sequence
+		for _, x := range [][2]string{{"GC", "gc"}, {"alloc", "alloc"}} {
+			fd := FindFunc(qf, "queue", x[0])
+			sb.WriteString("\ndef " + x[1] + "Conds : List String := " + LeanStrList(c05Conds(fd)) + "\n")
+			sb.WriteString("\ndef " + x[1] + "Assigns : List String := " + LeanStrList(c05Assigns(fd)) + "\n")
+		}
+		sb.WriteString("\ndef gcCallSeq : List String := " + LeanStrList(CallSeq(FindFunc(qf, "queue", "GC"))) + "\n")
 		// ---- MappedPage.WriteBytes is a plain copy
 		_, mf, err := ParseFile(repo, "pkg/queue/page/mpage.go")
 		if err != nil {
@@ -306,6 +315,12 @@ func c05Accesses(fd *ast.FuncDecl) []string {
 					}
 				}
 			}
+		case *ast.IncDecStmt:
+			if se, ok := x.X.(*ast.SelectorExpr); ok {
+				if id, ok := se.X.(*ast.Ident); ok && id.Name == recv {
+					out = append(out, se.Sel.Name+x.Tok.String())
+				}
+			}
 		case *ast.CallExpr:
 			if se, ok := x.Fun.(*ast.SelectorExpr); ok && keep[se.Sel.Name] {
 				var args []string
@@ -314,6 +329,33 @@ func c05Accesses(fd *ast.FuncDecl) []string {
 				}
 				out = append(out, lastIdent(se.X)+"."+se.Sel.Name+"("+strings.Join(args, ", ")+")")
 			}
+		}
+		return true
+	})
+	return out
+}
+
+// c05Conds lists the text of every if-condition of fd in source order.
+func c05Conds(fd *ast.FuncDecl) []string {
+	var out []string
+	ast.Inspect(fd.Body, func(n ast.Node) bool {
+		if is, ok := n.(*ast.IfStmt); ok {
+			out = append(out, types.ExprString(is.Cond))
+		}
+		return true
+	})
+	return out
+}
+
+// c05Assigns lists the text of every assignment / short variable declaration / inc-dec of fd.
+func c05Assigns(fd *ast.FuncDecl) []string {
+	var out []string
+	ast.Inspect(fd.Body, func(n ast.Node) bool {
+		switch x := n.(type) {
+		case *ast.AssignStmt:
+			out = append(out, c05Text(x))
+		case *ast.IncDecStmt:
+			out = append(out, types.ExprString(x.X)+x.Tok.String())
 		}
 		return true
 	})
